@@ -69,11 +69,15 @@ class Sentences(Part):
                          rfc4515.very_deep_sentence())
 
     def check(self, case: t.Any, ctx: Ctx) -> t.List[Violation]:
+        if "deep" in case:
+            case = rfc4515.expand_deep(case["deep"])
         return check_sentence(case, ctx)
 
     def sample(self, case: t.Any) -> t.Any:
         from .. import jsonx
 
+        if "deep" in case:
+            return {"deep": jsonx.brief(case["deep"]), "text": rfc4515.expand_deep(case["deep"])["text"][:300]}
         return {"text": case["text"][:300], "tree": jsonx.brief(case["tree"])}
 
 
